@@ -196,3 +196,37 @@ func shallowSig(res []interface{}) string {
 	}
 	return b.String()
 }
+
+// deepCopyShared copies v preserving its aliasing: a container reachable through several
+// slots is copied once and the copy is stored in all of them.
+func deepCopyShared(v interface{}, memo map[uintptr]interface{}) interface{} {
+	switch t := v.(type) {
+	case []interface{}:
+		if len(t) > 0 {
+			id := reflect.ValueOf(t).Pointer()
+			if c, ok := memo[id]; ok {
+				return c
+			}
+			out := make([]interface{}, len(t))
+			memo[id] = out
+			for i, e := range t {
+				out[i] = deepCopyShared(e, memo)
+			}
+			return out
+		}
+		return []interface{}{}
+	case map[string]interface{}:
+		id := reflect.ValueOf(t).Pointer()
+		if c, ok := memo[id]; ok {
+			return c
+		}
+		out := make(map[string]interface{}, len(t))
+		memo[id] = out
+		for k, e := range t {
+			out[k] = deepCopyShared(e, memo)
+		}
+		return out
+	default:
+		return v
+	}
+}
